@@ -367,6 +367,12 @@ func (c *FnCtx) fieldAddr(base *Val, structT types.Type, idx int) *Addr {
 	if base.Addr != nil && base.Addr.Kind == ACell {
 		return &Addr{Kind: ACell, Cell: base.Addr.Cell, Path: append(append([]int(nil), base.Addr.Path...), idx)}
 	}
+	if base.Addr != nil && base.Addr.Kind == AElem {
+		// field of a struct element of a slice: element address plus a path
+		n := *base.Addr
+		n.Path = append(append([]int(nil), base.Addr.Path...), idx)
+		return &n
+	}
 	ref := base.X
 	if base.Addr != nil {
 		ref = addrTerm(base.Addr)
@@ -426,6 +432,9 @@ func (c *FnCtx) loadAddr(st *State, a *Addr, t types.Type) *Val {
 		}
 	case AElem:
 		v = h.loadElem(a.Ref, a.IdxT, a.ET)
+		if len(a.Path) > 0 {
+			v = getPath(v, a.Path)
+		}
 	case AGlobal:
 		return c.loadGlobal(st, a.Glob)
 	}
@@ -488,6 +497,10 @@ func (c *FnCtx) storeAddr(st *State, a *Addr, t types.Type, v *Val) {
 	case AField:
 		h.storeField(a.Ref, a.ET, a.Idx, v)
 	case AElem:
+		if len(a.Path) > 0 {
+			whole := h.loadElem(a.Ref, a.IdxT, a.ET)
+			v = setPath(whole, a.Path, v)
+		}
 		h.storeElem(a.Ref, a.IdxT, a.ET, v)
 	case AGlobal:
 		c.storeGlobal(st, a.Glob, v)
@@ -808,4 +821,14 @@ func fnID(name string) *Term {
 		fnIDs[name] = id
 	}
 	return Num(-2000000 - id)
+}
+
+// escapingElemPtr: a pointer to a struct element of a slice used as a first-class value; the
+// struct-of-arrays model cannot dereference it later, so this is rejected (engine error).
+func escapingElemPtr(v *Val) bool {
+	if v == nil || v.Addr == nil || v.Addr.Kind != AElem {
+		return false
+	}
+	_, isStruct := v.Addr.ET.Underlying().(*types.Struct)
+	return isStruct && !isOpaque(v.Addr.ET)
 }
